@@ -251,3 +251,19 @@ func vTransOK(t pr.SDimensions) bool {
 //@   call Rectangle#1 assert[painting-area] arg1 == paintingArea[0] && arg2 == paintingArea[1] && arg3 == paintingArea[2] && arg4 == paintingArea[3]
 //@   call Rectangle#2 assert[painting-area] arg1 == paintingArea[0] && arg2 == paintingArea[1] && arg3 == paintingArea[2] && arg4 == paintingArea[3]
 //@   assert after paintingArea#1: paintingArea == bg.Layers[len(bg.Layers)-1].PaintingArea
+
+// clipping is preceded by path construction: the viewport clip follows the rounded padding box of the page,
+// the `clip` property its rectangle (offsets from the border box; auto = the border edge), and the overflow
+// clip of the content the rounded padding box of the box
+//@ func (drawContext).drawStackingContext$1
+//@   props C14
+//@   modifies anything
+//@   unclaimed call-*-pre* "box accessors on laid-out boxes"
+//@   call Clip#1 assert[viewport-path] calls(roundedBoxPath) == 1 && calls(Rectangle) == 0
+//@   call Clip#2 assert[clip-rectangle] calls(Rectangle) == 1
+//@   call Rectangle#1 assert[clip-property] arg3 == fl(left.Value - right.Value) && arg4 == fl(bottom.Value - top.Value) && (clips[2].S == "auto" ==> bottom.Value == box.BorderHeight()) && (clips[0].S == "auto" ==> top.Value == 0) && (clips[1].S == "auto" ==> right.Value == 0) && (clips[3].S == "auto" ==> left.Value == box.BorderWidth())
+//@ func (drawContext).drawStackingContext$1$1
+//@   props C14
+//@   modifies anything
+//@   unclaimed call-*-pre* "box accessors on laid-out boxes"
+//@   call Clip#1 assert[overflow-path] calls(roundedBoxPath) == 1
